@@ -36,6 +36,7 @@ type c09Row struct {
 	Idx int32  `parquet:"idx"`
 	K   *int64 `parquet:"k"`
 	Src int32  `parquet:"src"`
+	Sub int32  `parquet:"sub"` // second sorting column of the two-column mode
 	Tag string `parquet:"tag"` // a byte-array payload naming the row: its memory belongs to the source
 }
 
@@ -80,7 +81,17 @@ func c09Main(args []string) error {
 		// spread: the physical rows of an abstract key get distinct, interleaving key values (so pages hold
 		// key RANGES, as in time-ordered files); otherwise all rows of a block share one key value
 		spread := take(2) == 1
-		sorting := c09Sorting(sc)
+		// two: the key of the spread mode split over two sorting columns: k is shared by the rows of an abstract key,
+		// sub orders them (in the same direction); page bounds of the first column alone no longer order the rows
+		two := take(2) == 1 && !spread
+		sorting := []parquet.SortingColumn{c09Sorting(sc)}
+		if two {
+			if sc.Cfg.Desc {
+				sorting = append(sorting, parquet.Descending("sub"))
+			} else {
+				sorting = append(sorting, parquet.Ascending("sub"))
+			}
+		}
 
 		// build the inputs
 		inputs := make([][]c09Row, len(sc.Inputs))
@@ -98,13 +109,17 @@ func c09Main(args []string) error {
 					tok := k
 					if k != 0 {
 						x := int64(k)*1000 - 1500
-						if spread {
+						if spread || two {
 							pos := count[k]*block + j // position among this input's rows of abstract key k
 							if sc.Cfg.Desc {
 								pos = total[k]*block - 1 - pos
 							}
 							tok = k*100000 + pos*len(sc.Inputs) + i
-							x = int64(tok)
+							if spread {
+								x = int64(tok)
+							} else {
+								row.Sub = int32(pos*len(sc.Inputs) + i)
+							}
 						}
 						row.K = &x
 					}
@@ -120,18 +135,18 @@ func c09Main(args []string) error {
 		for i := range inputs {
 			switch source {
 			case "buffer":
-				b := parquet.NewGenericBuffer[c09Row](parquet.SortingRowGroupConfig(parquet.SortingColumns(sorting)))
+				b := parquet.NewGenericBuffer[c09Row](parquet.SortingRowGroupConfig(parquet.SortingColumns(sorting...)))
 				if _, err := b.Write(inputs[i]); err != nil {
 					buildErr = err
 				}
 				rgs = append(rgs, b)
 			default:
 				buf := new(bytes.Buffer)
-				opts := []parquet.WriterOption{parquet.SortingWriterConfig(parquet.SortingColumns(sorting))}
+				opts := []parquet.WriterOption{parquet.SortingWriterConfig(parquet.SortingColumns(sorting...))}
 				if compressed {
 					opts = append(opts, parquet.Compression(&parquet.Snappy))
 				}
-				if spread {
+				if spread || two {
 					opts = append(opts, parquet.PageBufferSize(512)) // many small pages, each a key range
 				}
 				w := parquet.NewGenericWriter[c09Row](buf, opts...)
@@ -163,7 +178,7 @@ func c09Main(args []string) error {
 			return fmt.Errorf("scenario %d: building inputs: %w", sc.ID, buildErr)
 		}
 		tr.begin(ev{"sc": sc.ID, "var": variant, "cfg": ev{"desc": sc.Cfg.Desc, "nullsFirst": sc.Cfg.NullsFirst, "dedupe": dedupe},
-			"inputs": keys, "block": block, "source": source, "spread": spread})
+			"inputs": keys, "block": block, "source": source, "spread": spread, "two": two})
 
 		project := func(rows []c09Row) [][]int {
 			out := make([][]int, len(rows))
@@ -177,6 +192,9 @@ func c09Main(args []string) error {
 						k = alien
 					} else {
 						k = int(x / 1000)
+						if two {
+							k = k*100000 + int(row.Sub)
+						}
 					}
 				}
 				out[i] = []int{int(row.Src), int(row.Idx), k}
@@ -195,7 +213,7 @@ func c09Main(args []string) error {
 			}
 			tr.emit("Out", e)
 		}
-		mergeOpts := []parquet.RowGroupOption{parquet.SortingRowGroupConfig(parquet.SortingColumns(sorting), parquet.DropDuplicatedRows(dedupe))}
+		mergeOpts := []parquet.RowGroupOption{parquet.SortingRowGroupConfig(parquet.SortingColumns(sorting...), parquet.DropDuplicatedRows(dedupe))}
 		readRows := func(rows parquet.RowReader, batch int) ([]c09Row, error) {
 			out := []c09Row{}
 			schema := parquet.SchemaOf(c09Row{})
@@ -288,7 +306,7 @@ func c09Main(args []string) error {
 				for i := range inputs {
 					readers[i] = &c09Chunker{rows: inputs[i], schema: schema, chunk: []int{1, 2, 3, 5, 8, 24}[r.intn(6)], recycle: r.intn(2) == 1}
 				}
-				rows, err = readRows(parquet.MergeRowReaders(readers, schema.Comparator(sorting)), []int{3, 16, 64}[r.intn(3)])
+				rows, err = readRows(parquet.MergeRowReaders(readers, schema.Comparator(sorting...)), []int{3, 16, 64}[r.intn(3)])
 			})
 			emit("MergeRowReaders", rows, err, pan, msg)
 		}
@@ -313,6 +331,8 @@ func c09Decode(_ *parquet.Schema, row parquet.Row, x *c09Row) error {
 			}
 		case "src":
 			x.Src = v.Int32()
+		case "sub":
+			x.Sub = v.Int32()
 		case "idx":
 			x.Idx = v.Int32()
 		case "tag":
